@@ -125,6 +125,7 @@ def pattern_settings():
         mk([C(min_=2), C(min_=2)], [C(min_=0), C(min_=0)], name='assigning min 2 repeatable'),
         mk([C(min_=0), C(min_=0)], [C(min_=2), C(min_=2)], name='assigning min 2 repeatable (targets)'),
         mk([C([1])], [C([1])], name='exactly one matrix'),
+        mk([C([0, 1], rep=False)], [C([1, 2])], name='partitioning one source needs its only optional target (one matrix)'),
     ]
     # the same variable has more options in one existence pattern than in another, and is inactive only in the smaller
     # one (merging of per-pattern variables and of their conditionally-active flags)
@@ -136,7 +137,15 @@ def pattern_settings():
            patterns=[_p(3, 1), _p(3, 1, src_absent=[0])], name='flag merge 3x1 first source conditional'),
         mk([C([1, 2]), C([0, 1])], [C([0, 1, 2]), C([0, 1])],
            patterns=[_p(2, 2), _p(2, 2, tgt_absent=[1]), _p(2, 2, src_override={0: [1]})], name='flag merge 2x2'),
+        # existence patterns without any valid matrix next to ones with: the listing and the imputers meet vectors that
+        # have no decode at all
+        mk([C(min_=2, rep=False)], [C([1]), C([1]), C([1])],
+           patterns=[_p(1, 3), _p(1, 3, tgt_override={2: [0, 1]}), _p(1, 3, tgt_override={2: [1, 3]}), _p(1, 3, tgt_absent=[0]),
+                     _p(1, 3, src_override={0: [3, 4]}), _p(1, 3, src_override={0: [0, 2]}, tgt_override={2: [1]}), _p(1, 3, src_absent=[0])],
+           name='undecodable vectors 1x3'),
     ]
+    for s_ in out[-4:]:
+        s_['keep_patterns'] = True
     return out
 
 
@@ -150,6 +159,8 @@ def settings_pool(tier, seed):
             out.append(pool.random_settings(rnd, ns, nt, p_excl=0.25, p_mcp=0.05))
     # fewer patterns per settings than C09: all present, one absent per side, one override per side
     for s in out:
+        if s.get('keep_patterns'):
+            continue
         pats = s['patterns']
         keep = [pats[0]]
         rest = pats[1:]
@@ -237,6 +248,13 @@ def instances(tier, seed):
                 for s in named:
                     if sub in (s.get('name') or ''):
                         add(spool.index(s), s, kind, i_enc, default_imputer_idx(kind))
+    if tier == 'quick':
+        # the "first valid vector" imputer asks the encoder to decode vectors other imputers never try
+        for f_idx, (kind, i_enc, _) in enumerate(facs):
+            if kind == 'lazy':
+                for s in named:
+                    if 'undecodable vectors' in (s.get('name') or '') or 'non-contiguous degree list' in (s.get('name') or ''):
+                        add(spool.index(s), s, kind, i_enc, 0)
     seen, uniq = set(), []
     for i_ in out:
         if i_['label'] not in seen:
@@ -316,7 +334,10 @@ def run_instance(inst, tier='quick', seed=0):
     ns, nt = len(s['src']), len(s['tgt'])
     cfg = dict(kind=kind, i_enc=i_enc, i_imp=i_imp, settings=s_plain(s))
     specs = [spec_of(s, p) for p in s['patterns']]
-    has_valid = [len(sp.brute_force(cap=4)) > 0 for sp in specs]
+    n_valid_bf = [len(sp.brute_force(cap=4)) for sp in specs]
+    has_valid = [n_ > 0 for n_ in n_valid_bf]
+    # (exact if no per-pair limit exceeds the cap of the brute-force listing)
+    single_matrix = all(n_ <= 1 for n_ in n_valid_bf) and all(l_ <= 4 for sp in specs for row in sp.limit for l_ in row)
     settings, exist = pool.to_settings(s)
     try:
         mgr, enc = build_manager(kind, i_enc, i_imp, settings)
@@ -359,6 +380,9 @@ def run_instance(inst, tier='quick', seed=0):
     try:
         all_dvs = mgr.get_all_design_vectors()
     except Exception as e:  # noqa
+        if not any(has_valid):  # no pattern admits a matrix: outside the statement of C10
+            res['notes'].append(f'get_all_design_vectors raises {type(e).__name__} on settings without any valid matrix (not an obligation)')
+            return res
         _viol(res, 'all_design_vectors', dict(kind='all_dv_raises', encoder=f'{kind}{i_enc}', exc=type(e).__name__, settings=pool.settings_label(s)),
               cfg, None, f'{type(e).__name__}: {e}', 'get_all_design_vectors returns')
         return res
@@ -645,7 +669,8 @@ def run_instance(inst, tier='quick', seed=0):
             res['obligations'] += 1
             if len(used_values[i]) < 2:
                 _viol(res, 'declared', dict(kind='variable_with_one_value', encoder=f'{kind}{i_enc}', encoder_class=enc_name.split('(')[0],
-                                            encoder_kind=kind, settings=pool.settings_label(s), var=i),
+                                            encoder_kind=kind, settings=pool.settings_label(s), var=i,
+                                            cause='every_pattern_has_one_valid_matrix' if single_matrix else 'other'),
                       cfg, dict(var=i), dict(used=sorted(used_values[i]), n_opts=n_opts[i]), '>= 2 used values per declared variable')
             else:
                 res['discharged'] += 1
